@@ -31,5 +31,13 @@ D = k4(0, 1, 2, 3, 0) + k4(4, 5, 6, 7, 1) + e2(0, 4, 2) + e2(0, 5, 3) + e2(1, 6,
 E = tri(0, 1, 2, 0) + tri(2, 3, 4, 1) + tri(5, 6, 7, 2) + e2(0, 5, 3) + e2(3, 6, 4) + e2(3, 7, 5)
 add("A-full", 8, A, "random"); add("A-holes", 8, A, "holes"); add("B-full", 6, B, "random"); add("C-full", 8, C, "random")
 add("C-holes", 8, C, "holes"); add("D-full", 8, D, "random"); add("E-full", 8, E, "assort")
+# a network with multi-topology corners: diamonds (rim edges "dia-outer", chord "dia-inner") and 2-cliques
+r2 = random.Random(5)
+while True:
+    es, jd, tops = R.clean_network(r2, 8, [2, "d"], 0.75)
+    if sum(1 for e in es if e[2] == "dia-inner") >= 2 and sum(1 for e in es if e[2] == "2-clique") >= 2:
+        break
+nets.append({"name": "F-diamonds", "V": list(range(8)), "jd": [list(j) for j in jd], "tops": tops,
+             "target": R.make_target(rng, es, jd, tops, "random"), "g0": sorted([a, b, t, m] for a, b, t, m in es)})
 json.dump(nets, open(os.path.join(os.path.dirname(os.path.dirname(os.path.abspath(__file__))), "spec", "rewiring_nets.json"), "w"))
 print(len(nets), "nets written")
